@@ -22,6 +22,7 @@ pub struct Env {
     pub urgent: Ghost<Seq<ControlMessage>>,     // the control messages waiting in the three queues (head = oldest)
     pub high: Ghost<Seq<ControlMessage>>,
     pub normal: Ghost<Seq<ControlMessage>>,
+    pub picked: Ghost<int>,          // the queue the latest message was taken from (0 urgent 1 high 2 normal); meaningful right after a successful receive
 }
 
 // frame: what an environment call that only lets time pass / lets other tasks send may change
@@ -292,6 +293,7 @@ impl Rx {
         ensures final(self).which == old(self).which, others_same(old(env), final(env), old(self).which),
             q(old(env), old(self).which).len() > 0 ==> r is Ok && r->Ok_0 == q(old(env), old(self).which)[0]
                 && q(final(env), old(self).which) == q(old(env), old(self).which).subrange(1, q(old(env), old(self).which).len() as int),
+            r is Ok ==> final(env).picked@ == old(self).which,
             q(old(env), old(self).which).len() == 0 ==> r is Err && q(final(env), old(self).which) == q(old(env), old(self).which),
     { unimplemented!() }
     // completion of a `recv()` future that `select!` reported ready
@@ -337,6 +339,7 @@ impl RecvFut {
         ensures others_same(old(env), final(env), self.which),
             r is Some && r->Some_0 == q(old(env), self.which)[0]
                 && q(final(env), self.which) == q(old(env), self.which).subrange(1, q(old(env), self.which).len() as int),
+            final(env).picked@ == self.which,
     { unimplemented!() }
 }
 pub open spec fn select_post(bs: Seq<Branch>, i: int, pre: &Env, post: &Env) -> bool {
@@ -346,6 +349,15 @@ pub open spec fn select_post(bs: Seq<Branch>, i: int, pre: &Env, post: &Env) -> 
     && (forall|j: int| 0 <= j < bs.len() && #[trigger] bs[j].kind == 3 && bs[j].until is Some ==>
             post.now@ <= (if pre.now@ >= bs[j].until->Some_0.t { pre.now@ } else { bs[j].until->Some_0.t }))
 }
+// `select! { biased; ... }`: the branches are polled in the order written, so the one taken is the FIRST that is ready at that moment
+pub open spec fn branch_ready(b: Branch, e: &Env) -> bool {
+    (b.kind <= 2 && q(e, b.kind).len() > 0) || (b.kind == 3 && b.until is Some && e.now@ >= b.until->Some_0.t)
+}
+#[verifier::external_body]
+pub fn vx_select_biased3(b0: Branch, b1: Branch, b2: Branch, env: &mut Env) -> (i: usize)
+    ensures select_post(seq![b0, b1, b2], i as int, old(env), final(env)),
+        i >= 1 ==> !branch_ready(b0, final(env)), i >= 2 ==> !branch_ready(b1, final(env)),
+{ unimplemented!() }
 #[verifier::external_body]
 pub fn vx_select3(b0: Branch, b1: Branch, b2: Branch, env: &mut Env) -> (i: usize)
     ensures select_post(seq![b0, b1, b2], i as int, old(env), final(env)),
